@@ -54,8 +54,19 @@ def run_c19(case):
     obs = {'starts': [], 'ends': [], 'raised': {}}
     caller = {}
 
+    # the semaphore side of the decorator must not change what the retry loop delivers: without a semaphore, with a
+    # free slot, and in lax mode after the acquisition timed out because another call holds the only slot
+    sem = case.get('sem')
+    semkw = {}
+    if sem:
+        semkw = dict(semaphore_limit=1, semaphore_name=f"c19_{id(obs)}", semaphore_lax=True, semaphore_timeout=0.25)
+
+    @hlp.retry(wait=0, retries=0, timeout=100000, **semkw)
+    async def holder():
+        await asyncio.sleep(50000)
+
     @hlp.retry(wait=case['wait'], retries=case['retries'], timeout=case['timeout'], retry_on=retry_on,
-               backoff_factor=case['bf'])
+               backoff_factor=case['bf'], **semkw)
     async def work():
         k = len(obs['starts'])
         loop = asyncio.get_event_loop()
@@ -86,6 +97,17 @@ def run_c19(case):
 
     async def main():
         caller['task'] = asyncio.current_task()
+        if sem == 'held':
+            ht = asyncio.ensure_future(holder())
+            await asyncio.sleep(0)
+            await asyncio.sleep(0)
+            try:
+                return await main2()
+            finally:
+                ht.cancel()
+        return await main2()
+
+    async def main2():
         wc = case.get('wait_cancel')
         if wc is not None:
             # cancel the caller in the middle of the backoff wait that follows attempt number wc
@@ -138,7 +160,8 @@ def gen_c19(rng):
         kind = rng.choice(kinds)
         dur = rng.choice([0, 0, 1 / 64, timeout - 1 / 64, timeout - 1 / 8, timeout / 2])
         atts.append((kind, dur))
-    case = {'retries': retries, 'timeout': timeout, 'wait': wait, 'bf': bf, 'retry_on': retry_on, 'atts': atts}
+    case = {'retries': retries, 'timeout': timeout, 'wait': wait, 'bf': bf, 'retry_on': retry_on, 'atts': atts,
+            'sem': rng.choice([None, None, 'free', 'held'])}
     if rng.random() < 0.08 and wait > 0:
         case['wait_cancel'] = rng.randint(0, retries)
     return case
@@ -467,8 +490,24 @@ def decide(prop, tier, seed, gate, my_thms, known, t0, replay):
                 vio.setdefault(int(p[1]), []).append(l)
             elif p[0] == 'COV':
                 stats[p[1]] += int(p[2])
+        # the property's own clauses on the real values, independent of the model: when every caller of an event loop has
+        # finished, each semaphore is back at its limit (every acquired slot released exactly once, nothing acquired by a
+        # task that is no caller)
+        own = {}
+        for (i, real, err), case in zip(res, cases):
+            if err or not real:
+                continue
+            for rec in real['log']:
+                if rec[0] == 'phaseEnd':
+                    for key, (val, nw) in rec[1].items():
+                        if val != case['L']:
+                            own.setdefault(i, []).append(f'semaphore {key}: value {val} after all callers finished, limit {case["L"]} (capacity leaked or over-released)')
+                elif rec[0] == 'acquired' and rec[2] == -1:
+                    own.setdefault(i, []).append(f'semaphore {rec[1]}: a slot was acquired by a task that belongs to no caller')
         for i, case in enumerate(cases):
-            if i in vio:
+            if i in own:
+                violations.append((case, own[i][:3], None, None))
+            elif i in vio:
                 violations.append((case, vio[i], None, None))
             elif i in rej:
                 diverged.append((case, rej[i]))
